@@ -6,6 +6,7 @@ CONSTANTS
   BinOps <- MC_OpsAll
   Maps = {}
   OnePairs = {}
+  Routes = {"equation", "block"}
   MaxUnits = 1000
   MinUnits = 0
   MaxDepth = 8
